@@ -37,7 +37,10 @@ import FgaVerif.Proofs.WAssignCycle
       and computed edges, the assignment returns the model-cycle error **for every start order**: the
       three-colour depth-first pre-pass is complete (`Proofs/WAssignCycle.lean`: the finished nodes form
       a topological list, and a topological list contains no node on a cycle);
-      `algorithm_prepass_complete` is the contrapositive.
+      `algorithm_prepass_complete` is the contrapositive, and `algorithm_prepass_sound` the converse on
+      graphs whose rewrite/computed edges end in nodes of the graph (`rclosedB`, evaluated by the driver on
+      every built graph): the pre-pass fires only if a cycle
+      exists (the chain of nodes in progress closes it), so it decides the question exactly.
 
     Not proved: that the port's verdict equals the specification's in general. -/
 namespace FgaVerif.Props.C05
@@ -164,6 +167,13 @@ theorem algorithm_prepass_complete (g : FgaVerif.Model.WGraph.G)
     (h : FgaVerif.Model.WAssign.hasRewriteOnlyCycle g = false) :
     ∀ n ∈ g.nodes, ¬ FgaVerif.Model.WAssign.RPath g n.uniqueLabel n.uniqueLabel :=
   FgaVerif.Model.WAssign.no_cycle_of_prepass g h
+
+/-- the ported pre-pass is sound on a graph whose rewrite/computed edges end in nodes of the graph (what
+    the builder produces): it reports a cycle only if one exists (fuel cannot run out: the chain of nodes
+    in progress has no repetition and stays inside the graph) -/
+theorem algorithm_prepass_sound (g : FgaVerif.Model.WGraph.G) (hcl : FgaVerif.Model.WAssign.rclosedB g = true)
+    (h : FgaVerif.Model.WAssign.hasRewriteOnlyCycle g = true) : ∃ x, FgaVerif.Model.WAssign.RPath g x x :=
+  FgaVerif.Model.WAssign.cycle_of_prepass g (FgaVerif.Model.WAssign.rclosedB_sound g hcl) h
 
 /-- **rewrite-only cycles never pass the (ported) algorithm, whatever the start order** -/
 theorem algorithm_rejects_rewrite_cycles (g : FgaVerif.Model.WGraph.G) (n : FgaVerif.Model.WGraph.WNode)
